@@ -439,20 +439,31 @@ func (d *driver) valsPart(name string, n int, tokAlpha []string, flagsList []str
 	})
 }
 
-func (d *driver) runVals(quick bool, n int) {
-	chains := []string{engine.ChainID, "other-chain-1"}
-	// token alphabet: two values per consensus-power class (3 in class 0; 1000000 and 1500000 in class 1: ties in the
-	// power index are broken by address), mid values and the huge ones
-	if quick {
-		combos := []valCombo{{1, seeds[0], 1, chains[0]}, {3, seeds[0], 1, chains[0]}, {3, seeds[1], ^uint64(0), chains[0]}, {3, seeds[0], 1, chains[1]}}
-		d.valsPart("vals:n=4", 4, []string{"3", "1000000", "1500000", tok63}, flagVectors(valFlags, 4), combos)
-	} else {
-		d.valsPart("vals:n=4", 4, []string{"1", "3", "1000000", "1500000", tok62, tok63}, flagVectors(valFlags, 4), combosFull([]int{1, 3, 10}, chains))
-		d.valsPart("vals:n=5", 5, []string{"3", "1000000", tok63}, flagVectors(valFlags, 5), combosFull([]int{1, 3}, chains[:1]))
-		d.valsPart("vals:n=6:eligible-or-inactive", 6, []string{"3", "1000000", "1500000", tok62}, flagVectors([]byte{'E', 'I'}, 6), combosFull([]int{3}, chains[:1]))
-	}
-	// around 2^64: single validators at / above the uint64 limit and totals crossing it
-	d.valsPart("vals:near-2^64", 3, []string{"1", tok63, tok64m, tok64}, flagVectors([]byte{'E', 'I'}, 3), combosFull([]int{1, 3}, chains[:1]))
+var valChains = []string{engine.ChainID, "other-chain-1"}
+
+// token alphabets: two values per consensus-power class (1 and 3 in class 0; 1000000 and 1500000 in class 1: ties in
+// the power index are broken by address), and the huge ones
+
+// runValsNear: single validators at / above the uint64 limit and totals crossing it.
+func (d *driver) runValsNear() {
+	d.valsPart("vals:near-2^64", 3, []string{"1", tok63, tok64m, tok64}, flagVectors([]byte{'E', 'I'}, 3), combosFull([]int{1, 3}, valChains[:1]))
+}
+
+func (d *driver) runValsQuick() {
+	combos := []valCombo{{1, seeds[0], 1, valChains[0]}, {3, seeds[0], 1, valChains[0]}, {3, seeds[1], ^uint64(0), valChains[0]}, {3, seeds[0], 1, valChains[1]}}
+	d.valsPart("vals:n=4", 4, []string{"3", "1000000", "1500000", tok63}, flagVectors(valFlags, 4), combos)
+}
+
+func (d *driver) runVals4Thorough() {
+	d.valsPart("vals:n=4", 4, []string{"1", "3", "1000000", "1500000", tok62, tok63}, flagVectors(valFlags, 4), combosFull([]int{1, 3, 10}, valChains))
+}
+
+func (d *driver) runVals5() {
+	d.valsPart("vals:n=5", 5, []string{"3", "1000000", tok63}, flagVectors(valFlags, 5), combosFull([]int{1, 3}, valChains[:1]))
+}
+
+func (d *driver) runVals6() {
+	d.valsPart("vals:n=6:eligible-or-inactive", 6, []string{"3", "1000000", "1500000", tok62}, flagVectors([]byte{'E', 'I'}, 6), combosFull([]int{3}, valChains[:1]))
 }
 
 // ---- through the message router: MsgRequestData -> Request.RequestedValidators ---------------------------------
